@@ -302,6 +302,8 @@ func runC18(c *Ctx) {
 	c.inflightRemovalRule("R18.6")
 	c.rule("R18.7", "calls on a closed or closing client end: a request is re-sent only on the wire's temporary-connection code, never on a local send error")
 	c.retryGateRule("R18.7")
+	c.rule("R18.9", "closing while streams are active cannot crash: a sink is removed from the table, under its lock, before it is closed (a queued value frame then no longer finds it)")
+	c.deleteThenClose("R18.9")
 	c.rule("R18.8", "the exit cleanup takes the sink-table lock, which the frame executor holds while it hands a value to a stream's buffering goroutine: that goroutine always keeps receiving (a lagging consumer cannot make the closer wait for ever)")
 	c.decouplingRule("R18.8")
 }
@@ -419,4 +421,34 @@ func (c *Ctx) cleanupCannotBlock(rule string) {
 		c.und(rule, "ping stopper", "-", "keepalive installer returns no function")
 	}
 	_ = types.Typ
+	// the loop's own deferred calls do not wait for other goroutines either: a WaitGroup.Wait (for the
+	// handler goroutines, say) among them runs before the defers registered earlier — the context cancel
+	// is the first of them — so handlers nobody has cancelled yet (notifications are not in the handling
+	// table) are waited for for ever and the rest of the teardown never happens
+	if r.FnLoop != nil {
+		allInstrsRaw(r.FnLoop, func(in ssa.Instruction) {
+			df, ok := in.(*ssa.Defer)
+			if !ok {
+				return
+			}
+			waits := calleeName(df) == "(*sync.WaitGroup).Wait"
+			for _, g := range c.funcsOf(df.Common().Value) {
+				p.coneInstrs(g, func(x ssa.Instruction) {
+					if ci, ok := x.(*ssa.Call); ok && calleeName(ci) == "(*sync.WaitGroup).Wait" {
+						waits = true
+					}
+				})
+			}
+			if g := staticCallee(df); g != nil && p.allFns[g] {
+				p.coneInstrs(g, func(x ssa.Instruction) {
+					if ci, ok := x.(*ssa.Call); ok && calleeName(ci) == "(*sync.WaitGroup).Wait" {
+						waits = true
+					}
+				})
+			}
+			if waits {
+				c.bad(rule, fmt.Sprintf("%s: deferred cleanup waits for goroutines", fname(r.FnLoop)), c.ipos(df), "a deferred call of the connection loop waits on a WaitGroup: it runs before the loop's context is cancelled (the cancel was deferred first, so it runs last), and handlers that only that cancel would stop — notification handlers are not in the handling table — are waited for for ever: the connection is never released")
+			}
+		})
+	}
 }
